@@ -42,7 +42,7 @@ from .errors import (
 )
 from .filterparse import _add_prefix, _root_keys, parse_filter
 from .h5store import H5StoreManager
-from .job import Job, calc_id
+from .job import Job, _ensure_thread_lock, calc_id
 from .schema import ProjectSchema
 from .sync import sync_projects
 from .version import SCHEMA_VERSION, __version__
@@ -1660,6 +1660,7 @@ class Project:
         # Locks are not pickleable and must be added back to the state
         state["_lock"] = RLock()
         self.__dict__.update(state)
+        _ensure_thread_lock(state.get("_document"))
 
 
 @contextmanager
